@@ -485,7 +485,11 @@ feederLoop:
 					child.broker.acks.Done()
 				remainingLoop:
 					for _, msg = range msgs[i:] {
-						child.interceptors(msg)
+						if msg != msgs[i] {
+							// msgs[i] already went through the interceptors before the
+							// hand-off attempt that timed out
+							child.interceptors(msg)
+						}
 						verifGate("pc.feed", child.topic, child.partition)
 						select {
 						case child.messages <- msg:
